@@ -1,17 +1,19 @@
-// Processors that do NOT read every input on every run (the model of Graph/Nodes.v assumes they do): a harness
-// type that reads one of two inputs depending on a selector, and the repository's repeat.LineNodeData, which
-// returns before reading Start / End when Times <= 0.  These histories are judged on the Go side only (the Coq
-// term of the case is the empty history): freshness against a from-scratch evaluation with the same reading
-// discipline, executions only after a change in the cone, version = executions, the node read reports Processed.
+// Processors that do NOT read every input on every run: a harness type with a gate discipline (ports Gate, A, B read
+// in this order; stop after Gate when its value is 0 mod 3, after A when it is 1 mod 3) and the repository's
+// repeat.LineNodeData (reads Times; returns before reading Start / End when Times <= 0).  The histories are rendered
+// as CLazy cases: Check/C11.v runs lrun / lvalue / lstale of Graph/NodesLazy.v on the same operations and compares
+// Version(), State() and the execution counter of ALL nodes after EVERY operation (corr_ok), and judges freshness and
+// "executes only after a change in its cone" on the observations (prop_ok).  The same rules are also evaluated here
+// (GoFail), so that the finding below carries its structural key.
 //
-// On a tree without /repo commit 6677351 (fixes/C11-unread-stale-input.patch) the rule "executes only if something
-// changed" fails: an input that is Stale and was not read keeps Outdated() true for ever, so the node (and
-// everything downstream) re-executes on every read.  Those failures carry FailKey lazyKey.
+// On a tree without /repo commit 6677351 an input that is Stale and was not read keeps Outdated() true for ever: the
+// node (and everything downstream) re-executes on every read.  Those failures carry FailKey lazyKey.
 package main
 
 import (
 	"encoding/json"
 	"fmt"
+	"strings"
 
 	"verif/harness/hx"
 
@@ -24,20 +26,23 @@ import (
 
 const lazyKey = "nodes:unread-stale-input-reexecutes"
 
-type LazyData struct {
-	m   *meta
-	Sel out
-	A   out
-	B   out
+type GateData struct {
+	m    *meta
+	Gate out
+	A    out
+	B    out
 }
 
-func (d LazyData) Process() (int, error) {
-	d.m.execs++
-	s := nodes.TryGetOutputValue(d.Sel, 0)
-	if s%2 == 0 {
-		return (d.m.salt*31 + s*7 + nodes.TryGetOutputValue(d.A, -1)) % hmod, nil
+func (d GateData) Process() (int, error) {
+	g := nodes.TryGetOutputValue(d.Gate, 0)
+	ports := [][]out{sc(d.Gate)}
+	if g%3 != 0 {
+		ports = append(ports, sc(d.A))
+		if g%3 != 1 {
+			ports = append(ports, sc(d.B))
+		}
 	}
-	return (d.m.salt*37 + s*11 + nodes.TryGetOutputValue(d.B, -2)) % hmod, nil
+	return d.m.run(ports)
 }
 
 type VecData struct {
@@ -50,6 +55,14 @@ func (d VecData) Process() (vector3.Float64, error) {
 	return vector3.New(float64(nodes.TryGetOutputValue(d.X, 1)), 0, 0), nil
 }
 
+// int abstraction of what repeat.Line returns: Line(s, e, t-2) = t-2 points in between, then s, then e
+func encLine(ts []trs.TRS) int {
+	if len(ts) < 2 {
+		return 0
+	}
+	return (len(ts)*10007 + int(ts[len(ts)-2].Position().X())*101 + int(ts[len(ts)-1].Position().X())) % hmod
+}
+
 type CountData struct {
 	m  *meta
 	In nodes.NodeOutput[[]trs.TRS]
@@ -57,98 +70,158 @@ type CountData struct {
 
 func (d CountData) Process() (int, error) {
 	d.m.execs++
-	ts := d.In.Value()
-	acc := d.m.salt + len(ts)
-	for _, t := range ts {
-		acc = (acc*31 + int(t.Position().X()*8)) % hmod
+	if d.In == nil {
+		return hashPorts(d.m.salt, [][]int{{}}), nil
 	}
-	return acc, nil
+	return hashPorts(d.m.salt, [][]int{{encLine(d.In.Value())}}), nil
 }
 
-// nodes: 0 sel, 1 pa, 2 pb (parameters); 3 U = chain(pa), 4 W = chain(pb), 5 L = lazy(sel, U, W), 6 T = chain(L);
-// 7 times, 8 px, 9 py (parameters); 10 S = vec(px), 11 E = vec(py), 12 line(S, E, times), 13 C = count(line)
+func hashPorts(salt int, ports [][]int) int {
+	acc := salt
+	for _, p := range ports {
+		acc = (acc*37 + 11 + len(p)) % hmod
+		for _, x := range p {
+			acc = (acc*31 + x) % hmod
+		}
+	}
+	return acc
+}
+
+// nodes: 0 gate, 1 pa, 2 pb (parameters); 3 U = chain(pa), 4 W = chain(pb), 5 G = gate(Gate: 0, A: U, B: W), 6 T = chain(G);
+// 7 times, 8 px, 9 py (parameters); 10 S = vec(px), 11 E = vec(py), 12 line(Times: 7, Start: S, End: E), 13 C = count(line)
 type lazyDesc struct {
 	Init []int    `json:"init"` // starting values of parameters 0,1,2,7,8,9
-	Ops  []opDesc `json:"ops"`  // set (n = parameter) / read (n = struct node)
+	Ops  []opDesc `json:"ops"`  // connect (the wiring, first) / set (n = parameter) / read
 }
+
+const lazyN = 14
 
 var lazyParams = []int{0, 1, 2, 7, 8, 9}
-var lazyDeps = map[int][]int{3: {1}, 4: {2}, 5: {0, 3, 4}, 6: {5}, 10: {8}, 11: {9}, 12: {7, 10, 11}, 13: {12}}
+var lazySalt = map[int]int{3: 103, 4: 104, 5: 105, 6: 106, 13: 113}
 
-func lazyReaches(n, p int) bool {
-	if n == p {
-		return true
-	}
-	for _, d := range lazyDeps[n] {
-		if lazyReaches(d, p) {
-			return true
-		}
-	}
-	return false
+func lazySetup() []opDesc {
+	c := func(n int, port string, src int) opDesc { return opDesc{Op: "connect", N: n, Port: port, Src: src} }
+	return []opDesc{c(3, "In", 1), c(4, "In", 2), c(5, "Gate", 0), c(5, "A", 3), c(5, "B", 4), c(6, "In", 5),
+		c(10, "X", 8), c(11, "X", 9), c(12, "Times", 7), c(12, "Start", 10), c(12, "End", 11), c(13, "In", 12)}
 }
 
-func runLazy(run *hx.Run, d lazyDesc) {
+func runLazy(run sink, d lazyDesc) {
 	val := map[int]int{}
+	ps := map[int]*parameter.Value[int]{}
 	for i, p := range lazyParams {
 		val[p] = d.Init[i]
-	}
-	ps := map[int]*parameter.Value[int]{}
-	for _, p := range lazyParams {
-		ps[p] = &parameter.Value[int]{Name: fmt.Sprintf("p%d", p), DefaultValue: val[p]}
+		ps[p] = &parameter.Value[int]{Name: fmt.Sprintf("p%d", p), DefaultValue: d.Init[i]}
 	}
 	ms := map[int]*meta{}
-	for _, n := range []int{3, 4, 5, 6, 10, 11, 12, 13} {
-		ms[n] = &meta{salt: 100 + n}
+	for _, n := range []int{3, 4, 5, 6, 10, 11, 13} {
+		ms[n] = &meta{salt: lazySalt[n]}
 	}
-	u := &nodes.Struct[int, ChainData]{Data: ChainData{m: ms[3], In: ps[1].Out()}}
-	w := &nodes.Struct[int, ChainData]{Data: ChainData{m: ms[4], In: ps[2].Out()}}
-	l := &nodes.Struct[int, LazyData]{Data: LazyData{m: ms[5], Sel: ps[0].Out(), A: u.Out(), B: w.Out()}}
-	t := &nodes.Struct[int, ChainData]{Data: ChainData{m: ms[6], In: l.Out()}}
-	s := &nodes.Struct[vector3.Float64, VecData]{Data: VecData{m: ms[10], X: ps[8].Out()}}
-	e := &nodes.Struct[vector3.Float64, VecData]{Data: VecData{m: ms[11], X: ps[9].Out()}}
-	line := &nodes.Struct[[]trs.TRS, repeat.LineNodeData]{Data: repeat.LineNodeData{Start: s.Out(), End: e.Out(), Times: ps[7].Out()}}
-	c := &nodes.Struct[int, CountData]{Data: CountData{m: ms[13], In: line.Out()}}
-	all := map[int]nodes.Node{3: u, 4: w, 5: l, 6: t, 10: s, 11: e, 12: line, 13: c}
-	intValue := map[int]func() int{3: u.Value, 4: w.Value, 5: l.Value, 6: t.Value, 13: c.Value}
-	// the line node has no execution counter of its own: its Version() stands in (checked against the consumers)
-	chain := func(salt, x int) int { return (((salt*37+11+1)%hmod)*31 + x) % hmod }
+	u := &nodes.Struct[int, ChainData]{Data: ChainData{m: ms[3]}}
+	w := &nodes.Struct[int, ChainData]{Data: ChainData{m: ms[4]}}
+	g := &nodes.Struct[int, GateData]{Data: GateData{m: ms[5]}}
+	t := &nodes.Struct[int, ChainData]{Data: ChainData{m: ms[6]}}
+	s := &nodes.Struct[vector3.Float64, VecData]{Data: VecData{m: ms[10]}}
+	e := &nodes.Struct[vector3.Float64, VecData]{Data: VecData{m: ms[11]}}
+	line := &nodes.Struct[[]trs.TRS, repeat.LineNodeData]{}
+	c := &nodes.Struct[int, CountData]{Data: CountData{m: ms[13]}}
+	all := map[int]nodes.Node{3: u, 4: w, 5: g, 6: t, 10: s, 11: e, 12: line, 13: c}
+	ref := map[int]nodes.NodeOutputReference{3: u.Out(), 4: w.Out(), 5: g.Out(), 6: t.Out(), 10: s.Out(), 11: e.Out(), 12: line.Out(), 13: c.Out()}
+	for _, p := range lazyParams {
+		all[p], ref[p] = ps[p], ps[p].Out()
+	}
+	value := map[int]func() int{3: u.Value, 4: w.Value, 5: g.Value, 6: t.Value, 13: c.Value,
+		10: func() int { return int(s.Value().X()) }, 11: func() int { return int(e.Value().X()) }, 12: func() int { return encLine(line.Value()) }}
+	for _, p := range lazyParams {
+		p := p
+		value[p] = func() int { return ps[p].Value() }
+	}
+	// wiring as applied so far (for the from-scratch evaluation and the cone)
+	wired := map[int]map[string]int{}
+	in := func(n int, port string) (int, bool) { x, ok := wired[n][port]; return x, ok }
 	var scratch func(n int) int
+	chainOf := func(n int) int {
+		if src, ok := in(n, "In"); ok {
+			return hashPorts(lazySalt[n], [][]int{{scratch(src)}})
+		}
+		return hashPorts(lazySalt[n], [][]int{{}})
+	}
+	opt := func(n int, port string) []int {
+		if src, ok := in(n, port); ok {
+			return []int{scratch(src)}
+		}
+		return []int{}
+	}
 	scratch = func(n int) int {
 		switch n {
-		case 3:
-			return chain(ms[3].salt, val[1])
-		case 4:
-			return chain(ms[4].salt, val[2])
+		case 3, 4, 6:
+			return chainOf(n)
 		case 5:
-			if val[0]%2 == 0 {
-				return (ms[5].salt*31 + val[0]*7 + scratch(3)) % hmod
+			gp := opt(5, "Gate")
+			gv := 0
+			if len(gp) > 0 {
+				gv = gp[0]
 			}
-			return (ms[5].salt*37 + val[0]*11 + scratch(4)) % hmod
-		case 6:
-			return chain(ms[6].salt, scratch(5))
+			ports := [][]int{gp}
+			if gv%3 != 0 {
+				ports = append(ports, opt(5, "A"))
+				if gv%3 != 1 {
+					ports = append(ports, opt(5, "B"))
+				}
+			}
+			return hashPorts(lazySalt[5], ports)
+		case 10, 11:
+			if src, ok := in(n, "X"); ok {
+				return scratch(src)
+			}
+			return 1
+		case 12:
+			ts, okT := in(12, "Times")
+			ss, okS := in(12, "Start")
+			es, okE := in(12, "End")
+			if !okT || !okS || !okE || scratch(ts) <= 0 {
+				return 0
+			}
+			return (scratch(ts)*10007 + scratch(ss)*101 + scratch(es)) % hmod
 		case 13:
-			var ts []trs.TRS
-			if val[7] > 0 {
-				ts, _ = repeat.LineNodeData{Start: nodes.Value(vector3.New(float64(val[8]), 0, 0)).Out(),
-					End: nodes.Value(vector3.New(float64(val[9]), 0, 0)).Out(), Times: nodes.Value(val[7]).Out()}.Process()
+			if src, ok := in(13, "In"); ok {
+				return hashPorts(lazySalt[13], [][]int{{scratch(src)}})
 			}
-			acc := ms[13].salt + len(ts)
-			for _, x := range ts {
-				acc = (acc*31 + int(x.Position().X()*8)) % hmod
-			}
-			return acc
+			return hashPorts(lazySalt[13], [][]int{{}})
 		}
-		return 0
+		return val[n]
 	}
-	touched := map[int]bool{}
-	for n := range all {
-		touched[n] = true
+	var reaches func(n, p int) bool
+	reaches = func(n, p int) bool {
+		if n == p {
+			return true
+		}
+		for _, src := range wired[n] {
+			if reaches(src, p) {
+				return true
+			}
+		}
+		return false
 	}
+	isParam := func(n int) bool { _, ok := ps[n]; return ok }
 	execs := func(n int) int {
-		if n == 12 {
-			return line.Version()
+		switch {
+		case isParam(n):
+			return 0
+		case n == 12:
+			return line.Version() // the repository's processor has no counter: one version step = one completed run
 		}
 		return ms[n].execs
+	}
+	table := func() []rowT {
+		t := make([]rowT, lazyN)
+		for n := 0; n < lazyN; n++ {
+			t[n] = rowT{ver: all[n].Version(), stale: all[n].State() != nodes.Processed, execs: execs(n)}
+		}
+		return t
+	}
+	touched := map[int]bool{}
+	for n := 0; n < lazyN; n++ {
+		touched[n] = true
 	}
 	fail, failKey := "", ""
 	report := func(msg string, unread bool) {
@@ -159,64 +232,115 @@ func runLazy(run *hx.Run, d lazyDesc) {
 			}
 		}
 	}
-	// does n have a wired input node that is Stale right now (one its last run did not read)?
 	hasStaleInput := func(n int) bool {
-		for _, dd := range lazyDeps[n] {
-			if sn, ok := all[dd]; ok && sn.State() != nodes.Processed {
+		for _, src := range wired[n] {
+			if all[src].State() != nodes.Processed {
 				return true
 			}
 		}
 		return false
 	}
-	spurious := 0
-	for i, o := range d.Ops {
-		before, bver := map[int]int{}, map[int]int{}
-		for n, nd := range all {
-			before[n], bver[n] = execs(n), nd.Version()
+
+	var b strings.Builder
+	b.WriteString("CLazy [")
+	kinds := make([]string, lazyN)
+	for n := 0; n < lazyN; n++ {
+		if n > 0 {
+			b.WriteString(";")
 		}
-		switch o.Op {
-		case "set":
-			if _, err := ps[o.N].ApplyMessage([]byte(fmt.Sprint(o.V))); err != nil {
-				report(fmt.Sprintf("op %d: update rejected: %v", i, err), false)
+		kinds[n] = "0"
+		switch {
+		case isParam(n):
+			fmt.Fprintf(&b, "dP %d", val[n])
+		case n == 5:
+			fmt.Fprintf(&b, "dG [(\"Gate\"%%string,false);(\"A\"%%string,false);(\"B\"%%string,false)] %d", lazySalt[5])
+			kinds[n] = "1"
+		case n == 10 || n == 11:
+			b.WriteString("dV")
+		case n == 12:
+			b.WriteString("dL")
+			kinds[n] = "2"
+		default:
+			fmt.Fprintf(&b, "dS [(\"In\"%%string,false)] %d", lazySalt[n])
+		}
+	}
+	fmt.Fprintf(&b, "]\n  [%s]\n  [", strings.Join(kinds, ";"))
+	prev := table()
+	for i, r := range prev {
+		if i > 0 {
+			b.WriteString(";")
+		}
+		b.WriteString(coqRow(r))
+	}
+	b.WriteString("]\n  [")
+	spurious, execReads := 0, 0
+	for i, o := range d.Ops {
+		if i > 0 {
+			b.WriteString(";\n   ")
+		}
+		var got int
+		cl, msg := guard(func() {
+			switch o.Op {
+			case "set":
+				p, ok := ps[o.N]
+				if !ok {
+					panic(fmt.Errorf("harness: node %d is not a parameter", o.N))
+				}
+				if _, err := p.ApplyMessage([]byte(fmt.Sprint(o.V))); err != nil {
+					panic(err)
+				}
+			case "connect":
+				all[o.N].SetInput(o.Port, nodes.Output{NodeOutput: ref[o.Src]})
+			default:
+				got = value[o.N]()
 			}
-			val[o.N] = o.V
-			for n := range all {
-				if lazyReaches(n, o.N) {
-					touched[n] = true
+		})
+		if cl == "crash" {
+			report(fmt.Sprintf("op %d %+v: runtime panic: %s", i, o, msg), false)
+		}
+		acc := cl == ""
+		if acc {
+			switch o.Op {
+			case "set":
+				val[o.N] = o.V
+				for n := 0; n < lazyN; n++ {
+					if reaches(n, o.N) {
+						touched[n] = true
+					}
+				}
+			case "connect":
+				if wired[o.N] == nil {
+					wired[o.N] = map[string]int{}
+				}
+				wired[o.N][o.Port] = o.Src
+				for n := 0; n < lazyN; n++ {
+					if reaches(n, o.N) {
+						touched[n] = true
+					}
 				}
 			}
-		case "read":
-			var got, want int
-			cl, msg := guard(func() {
-				if o.N == 12 {
-					got, want = len(line.Value()), 0
-					if val[7] > 0 {
-						ts, _ := repeat.LineNodeData{Start: nodes.Value(vector3.New(float64(val[8]), 0, 0)).Out(),
-							End: nodes.Value(vector3.New(float64(val[9]), 0, 0)).Out(), Times: nodes.Value(val[7]).Out()}.Process()
-						want = len(ts)
-					}
-				} else if o.N == 10 || o.N == 11 {
-					if o.N == 10 {
-						got, want = int(s.Value().X()), val[8]
-					} else {
-						got, want = int(e.Value().X()), val[9]
-					}
-				} else {
-					got, want = intValue[o.N](), scratch(o.N)
-				}
-			})
-			if cl != "" {
-				report(fmt.Sprintf("op %d: read of node %d panicked: %s", i, o.N, msg), false)
-			}
+		}
+		cur := table()
+		vs, ss := "None", "None"
+		if acc && o.Op == "read" {
+			want := scratch(o.N)
+			vs, ss = fmt.Sprintf("(Some %d%%Z)", got), fmt.Sprintf("(Some %d%%Z)", want)
 			if got != want {
 				report(fmt.Sprintf("op %d: node %d returned %d, from-scratch evaluation gives %d", i, o.N, got, want), false)
 			}
-			if all[o.N].State() != nodes.Processed {
+			if cur[o.N].stale {
 				report(fmt.Sprintf("op %d: node %d reports Stale right after being read", i, o.N), hasStaleInput(o.N))
 			}
 		}
-		for n, nd := range all {
-			de, dv := execs(n)-before[n], nd.Version()-bver[n]
+		chg := []string{}
+		for n := 0; n < lazyN; n++ {
+			if cur[n] != prev[n] {
+				chg = append(chg, fmt.Sprintf("chg %d %d %s %d", n, cur[n].ver, hx.CoqBool(cur[n].stale), cur[n].execs))
+			}
+			if isParam(n) {
+				continue
+			}
+			de, dv := cur[n].execs-prev[n].execs, cur[n].ver-prev[n].ver
 			if de != dv {
 				report(fmt.Sprintf("op %d: node %d: version moved by %d, executions by %d", i, n, dv, de), false)
 			}
@@ -229,32 +353,43 @@ func runLazy(run *hx.Run, d lazyDesc) {
 			}
 			if de > 0 {
 				touched[n] = false
+				if o.Op == "read" {
+					execReads++
+				}
 			}
 		}
+		prev = cur
+		od := o
+		od.Ref = 0
+		fmt.Fprintf(&b, "(%s, Obs %s false %s %s [%s])", coqOp(od, "pval"), hx.CoqBool(!acc), vs, ss, strings.Join(chg, ";"))
 	}
+	b.WriteString("]")
 	key, _ := json.Marshal(d)
 	run.Count("shape:lazy-processors")
 	if spurious > 0 {
 		run.Count("lazy:spurious-executions")
 	}
-	run.Add(hx.Case{Kind: "lazy", Desc: d, Coq: "CHist [] [] [] []", Nontriv: len(d.Ops) > 4, Key: string(key), GoFail: fail, FailKey: failKey})
+	run.Add(hx.Case{Kind: "lazy", Desc: d, Coq: b.String(), Nontriv: execReads > 0, Key: string(key), GoFail: fail, FailKey: failKey})
 }
 
 func fixedLazy() []lazyDesc {
 	rd := func(n int) opDesc { return opDesc{Op: "read", N: n} }
 	st := func(n, v int) opDesc { return opDesc{Op: "set", N: n, V: v} }
 	return []lazyDesc{
-		// selector even: A is read, B never; B's parameter changes; idle reads of L and T
-		{Init: []int{2, 5, 6, 0, 3, 9}, Ops: []opDesc{rd(6), rd(6), rd(5), st(2, 7), rd(6), rd(6), rd(5), rd(5), st(0, 3), rd(6), rd(6), st(1, 8), rd(6), rd(6), rd(4), rd(3), rd(6),
-			st(0, 4), rd(5), rd(5), rd(6)}},
-		// repeat.LineNodeData with Times = 0: Start / End are never evaluated; idle reads of the line and its consumer
-		{Init: []int{1, 1, 1, 0, 3, 9}, Ops: []opDesc{rd(13), rd(13), rd(12), rd(12), st(8, 4), rd(13), rd(13), st(7, 4), rd(13), rd(13), rd(12), st(9, 11), rd(13), rd(13),
-			st(7, 0), rd(13), rd(13), st(8, 5), rd(13), rd(13), rd(10), rd(13)}},
+		// gate 0: neither A nor B is read; their parameters change; idle reads; then gate 1 (A only), gate 2 (both)
+		{Init: []int{0, 5, 6, 0, 3, 9}, Ops: append(lazySetup(), rd(6), rd(6), rd(5), st(2, 7), rd(6), rd(6), rd(5), rd(5), st(0, 1), rd(6), rd(6), st(2, 8), rd(6), rd(6),
+			st(1, 9), rd(6), rd(6), rd(4), rd(6), st(0, 2), rd(5), rd(5), st(2, 10), rd(6), rd(6), st(0, 3), rd(6), st(1, 11), rd(6), rd(6), rd(3), rd(6))},
+		// repeat.LineNodeData with Times = 0: Start / End are never evaluated; idle reads of the line and of its consumer
+		{Init: []int{1, 1, 1, 0, 3, 9}, Ops: append(lazySetup(), rd(13), rd(13), rd(12), rd(12), st(8, 4), rd(13), rd(13), st(7, 4), rd(13), rd(13), rd(12), st(9, 11), rd(13), rd(13),
+			st(7, 0), rd(13), rd(13), st(8, 5), rd(13), rd(13), rd(10), rd(13), st(7, 2), rd(13), rd(13))},
+		// reads while the wiring is still incomplete (gate and vector helpers with unconnected inputs)
+		{Init: []int{2, 4, 5, 3, 1, 2}, Ops: append([]opDesc{rd(5), rd(5), rd(10), rd(6), rd(6)}, append(lazySetup(), rd(6), rd(13), rd(13), rd(6))...)},
 	}
 }
 
 func genLazy(r *hx.Rng) lazyDesc {
-	d := lazyDesc{Init: []int{r.Intn(4), r.Intn(50), r.Intn(50), hx.Pick(r, []int{0, 0, 3, 4}), r.Intn(20), 20 + r.Intn(20)}}
+	d := lazyDesc{Init: []int{r.Intn(6), r.Intn(50), r.Intn(50), hx.Pick(r, []int{0, 0, 3, 4}), r.Intn(20), 20 + r.Intn(20)}}
+	d.Ops = lazySetup()
 	structs := []int{3, 4, 5, 6, 6, 5, 10, 11, 12, 13, 13}
 	for k := r.Range(20, 50); k > 0; k-- {
 		switch x := r.Intn(10); {
@@ -262,10 +397,10 @@ func genLazy(r *hx.Rng) lazyDesc {
 			p := hx.Pick(r, lazyParams)
 			v := r.Intn(50)
 			if p == 0 {
-				v = r.Intn(5)
+				v = r.Intn(6)
 			}
 			if p == 7 {
-				v = hx.Pick(r, []int{0, 0, 3, 4, 5}) // (Times = 1 makes repeat.Line panic: makeslice with a negative length)
+				v = hx.Pick(r, []int{0, 0, 2, 3, 4, 5}) // (Times = 1 makes repeat.Line panic: makeslice with a negative length)
 			}
 			d.Ops = append(d.Ops, opDesc{Op: "set", N: p, V: v})
 		case x < 5:
